@@ -37,9 +37,15 @@ func c13Echo(ctx context.Context, srvWant interface{}) string {
 	if s, ok := mcp.GetSessionFromContext(ctx); ok && s != nil {
 		sid = s.GetID()
 	}
+	sdata := "-"
+	if s, ok := mcp.GetSessionFromContext(ctx); ok && s != nil {
+		if v, ok := s.GetData("c13-tok"); ok {
+			sdata, _ = v.(string)
+		}
+	}
 	_, hasSender := mcp.GetNotificationSender(ctx)
 	srvOK := mcp.GetServerFromContext(ctx) == srvWant
-	b, _ := json.Marshal(map[string]interface{}{"k1": k1, "k2": k2, "sid": sid, "sender": hasSender, "server": srvOK})
+	b, _ := json.Marshal(map[string]interface{}{"k1": k1, "k2": k2, "sid": sid, "sender": hasSender, "server": srvOK, "sdata": sdata})
 	return string(b)
 }
 
@@ -80,6 +86,10 @@ func c13Rig(mode string, trace *hx.Log) *Rig {
 		return func(ctx context.Context, req *mcp.JSONRPCRequest) (mcp.JSONRPCMessage, error) {
 			k1, _ := ctx.Value(c13k1{}).(string)
 			trace.Add("mw %v %s", req.ID, k1)
+			// the middleware leaves a note on the session of *this* request; the handler reads it back
+			if s, ok := mcp.GetSessionFromContext(ctx); ok && s != nil {
+				s.SetData("c13-tok", k1)
+			}
 			return next(ctx, req)
 		}
 	}
@@ -142,6 +152,9 @@ func c13Judge(mode, op, token, sid, frame string) (string, string) {
 	}
 	if mode != "sl" && sid != "" && !strings.Contains(unesc, fmt.Sprintf(`"sid":"%s"`, sid)) {
 		return "session-bleed", fmt.Sprintf("%s asked in session %q was processed with %s", op, sid, truncate(unesc, 200))
+	}
+	if !strings.Contains(unesc, `"sdata":"-"`) && !strings.Contains(unesc, fmt.Sprintf(`"sdata":"%s"`, token)) {
+		return "session-data-bleed", fmt.Sprintf("%s asked with token %q: the handler read from its request's session the note of another request: %s", op, token, truncate(unesc, 240))
 	}
 	if op == "tools/call" {
 		if !strings.Contains(unesc, `"server":true`) {
@@ -225,7 +238,7 @@ func init() {
 	}
 	RegisterCheck("C13", func(c *Ctx) {
 		c.Level = "exploration"
-		c.Rule = "two clients with distinct header tokens (admin/guest) concurrently issue every pair of {tools/list, tools/call, prompts/list, prompts/get, resources/list, resources/read} on Streamable (JSON, SSE, stateless) and legacy SSE servers configured with two order-sensitive HTTP context functions, list filters, a middleware and echoing handlers; DFS (sleep-set reduced) over all schedules within the preemption bound; each answer and each middleware record must carry the requester's own token/session"
+		c.Rule = "two clients with distinct header tokens (admin/guest) concurrently issue every pair of {tools/list, tools/call, prompts/list, prompts/get, resources/list, resources/read} on Streamable (JSON, SSE, stateless) and legacy SSE servers configured with two order-sensitive HTTP context functions, list filters, a middleware and echoing handlers; DFS (sleep-set reduced) over all schedules within the preemption bound; each answer and each middleware record must carry the requester's own token/session, and a note the middleware leaves on the request's session must be the one the handler of the same request reads back"
 		c.Assume = append(c.Assume, "memnet replaces net/http", "sleep-set partial-order reduction (DESIGN 2.8)")
 		for _, mode := range []string{"sj", "ss", "sl", "ls"} {
 			for i := range c13Ops {
